@@ -757,3 +757,80 @@ def run(ctx):
         if n < 4:
             raise AnchorMissing("expected the tag-attribute arms of the struct recognisers (found %d)" % n)
 
+    with ctx.rule("C16.R14", "T3", "an end event ends a recogniser's own body only in a state in which no nested value is being read", floor=6) as r:
+        # While a machine forwards events to a nested recogniser (its `Item` state), EndRecord / EndAttribute belong to the nested value: a struct in
+        # a tuple, an attribute of an item. A test for the machine's own end that is not confined to the other states takes the end of an item's
+        # attribute for the end of the body - the direct reader then rejects (or cuts short) what the model path reads.
+        def fwd_calls(b):
+            out = []
+            for c in b.calls:
+                args = [describe_operand(b, a) for a in c.args]
+                if "input" not in args and not any(a.startswith("input") for a in args):
+                    continue
+                if (c.name is None and len(args) >= 2) or c.via_name == "feed_event":
+                    out.append(c)
+            return out
+        n_m = 0
+        for b in f.all_bodies():
+            if b.meta.get("name") != "feed_event" or "read::recognizer::" not in b.defpath or "{closure" in b.defpath or "::primitive::" in b.defpath:
+                continue
+            SP = ("self.state", "(*self.state)", "self.stage", "(*self.stage)")
+            sw = [si for si in b.switches_on(lambda p, si: True) if si.get("kind") == "disc" and describe_place(b, si["place"]) in SP]
+            fw = fwd_calls(b)
+            if not sw or not fw:
+                continue
+            tag = (b.meta.get("self_adt") or b.defpath).split("::")[-1].split("<")[0]
+            sd = {"disc(%s)" % x for x in SP}
+            fstates = set()
+            # (1) arms of a match on the state that hand the event on whatever it is
+            for si in sw:
+                ve = b.variant_edges(si["block"]) or {}
+                for v, t in ve.items():
+                    blocks = {c.block for c in fw if b.dominates(t, c.block) or c.block == t}
+                    if blocks and t != si.get("otherwise") and (t in blocks or b.must_pass([t], blocks)[0]):
+                        fstates.add(v)
+            # (2) a state written just before the event is handed on with `?` (the machine stays in it while the nested value needs more events)
+            for i, j, p_, rv, line in b.assigns():
+                if describe_place(b, p_) in SP:
+                    v = rv[1].get("variant") if rv[0] == "agg" else None
+                    if v is None:
+                        mm_ = re.match(r"^(?:[\w:]+::)?(\w+)\(.*\)$", describe_rvalue(b, rv))
+                        v = mm_.group(1) if mm_ else None
+                    if v and any((b.dominates(i, c.block) or i == c.block) and b.try_edges(c) is not None for c in fw):
+                        fstates.add(v)
+            if not fstates:
+                continue
+            ctx.saw(b)
+            n_m += 1
+            # a *completion*: the machine answers with a value of its own (`Some(x)`, x not an error) - as opposed to handing the event on
+            done = set()
+            for i_, j_, p_, rv, line in b.assigns():
+                if p_[0] == 0 and not p_[1]:
+                    d_ = describe_rvalue(b, rv)
+                    if d_.startswith("Option::Some(") and not re.match(r"^Option::Some\((Result::)?Err\(", d_):
+                        done.add(i_)
+            fwb = {c.block for c in fw}
+            in_sw = [si for si in b.switches_on(lambda p, si: True) if si.get("kind") == "disc" and describe_place(b, si["place"]) in ("input", "(*input)")]
+            first = [si for si in sw if all(b.dominates(si["block"], o["block"]) for o in sw)]
+            for v in sorted(fstates):
+                for kind in ("EndRecord", "EndAttribute"):
+                    a_in = None
+                    for si in in_sw:
+                        a_in = a_in or b.variant_assumption(si, kind)
+                    a_st = b.variant_assumption(first[0], v) if first else None
+                    if a_st is not None:
+                        # from the first test of the state, on the edge the assumed state takes (the block of the test itself may set up the borrow)
+                        ve0 = b.variant_edges(first[0]["block"]) or {}
+                        src = [ve0[v]] if v in ve0 else ([first[0]["otherwise"]] if first[0].get("otherwise") is not None else [])
+                    else:
+                        # the state is matched on once: start inside its arm
+                        src = [t for si in sw for vv, t in (b.variant_edges(si["block"]) or {}).items() if vv == v]
+                    if not src:
+                        continue
+                    dst = done if a_in is not None else {x for x in done if any(dd in ("disc(input)", "disc((*input))") and set(ll.split("|")) <= {"EndRecord", "EndAttribute"} and kind in ll.split("|") for dd, ll, _ in dom_guards(b, x))}
+                    w = b.path_avoiding(src, dst, avoid=fwb, assume=(a_st or ()) + (a_in or ())) if dst else None
+                    r.check(w is None, "%s/%s/%s/belongs-to-the-nested-value" % (tag, v, kind), where(b),
+                            "in state %s an %s is handed to the nested recogniser before the machine answers with a value of its own" % (v, kind),
+                            "in state %s (a nested value is being read) an %s can make the machine answer with a value of its own without consulting the nested recogniser (blocks %s): the end of an item's own attribute / record is taken for the end of the outer body, so the direct reader rejects or cuts short what the model path reads" % (v, kind, (w or [])[:8]))
+        if n_m < 3:
+            raise AnchorMissing("expected the recogniser state machines that forward events (found %d)" % n_m)
